@@ -33,6 +33,7 @@ let () =
     | [| _; "literal" |] -> Litcmd.handle
     | [| _; "span" |] -> Spancmd.handle
     | [| _; "value" |] -> Valcmd.handle
+    | [| _; "peg" |] -> Pegcmd.handle
     | _ -> prerr_endline "usage: svd <command>"; exit 2 in
   (try
      while true do
